@@ -478,6 +478,7 @@ def plan(tier, seed):
     for o1 in range(len(OPS)):
         shards.append(("bfs", "handfilled", o1, 3 if tier != "quick" else 2))
     shards.append(("readonly",))
+    shards.append(("vector", 3 if tier == "quick" else 4))
     k = seed % len(shards)
     return shards[k:] + shards[:k]
 
@@ -577,9 +578,105 @@ def _run_readonly(desc):
     return sh
 
 
+def _run_vector(desc):
+    """a table holding a column with several values per row (an (nrows, 3) vector column - addcolumn only asks for shape[0] == nrows) next
+    to plain ones: every history of up to `depth` row operations (filters, row removals, sorts, reorderings, copies, row copies); after each
+    one every column - whatever its shape - holds the same selection / permutation of the original rows"""
+    _, depth = desc
+    from ImageD11 import columnfile as C
+    sh = Shard()
+    n = 6
+    orig = {"a": np.array([3.0, 1.0, 2.0, 5.0, 4.0, 0.0]), "b": np.array([1.0, 1.0, 0.0, 0.0, 2.0, 2.0]),
+            "v": np.arange(n * 3, dtype=float).reshape(n, 3) + 100.0, "w": (np.arange(n * 2) * 7 % 11).reshape(n, 2).astype(float)}
+
+    def build():
+        cf = C.colfile_from_dict({"a": orig["a"].copy(), "b": orig["b"].copy()})
+        cf.addcolumn(orig["v"].copy(), "v")
+        cf.addcolumn(orig["w"].copy(), "w")
+        return cf
+    # (name, precondition on the current number of rows, f(cf, idx) -> (cf, idx))
+    def keep(mask_fn):
+        def f(cf, idx):
+            m = mask_fn(idx)
+            cf.filter(m)
+            return cf, idx[m]
+        return f
+
+    def removerows(cf, idx):
+        cf.removerows("a", [1.0, 4.0])
+        return cf, idx[~np.isin(orig["a"][idx], [1.0, 4.0])]
+
+    def reorder_rev(cf, idx):
+        cf.reorder(np.arange(len(idx))[::-1].copy())
+        return cf, idx[::-1]
+
+    def reorder_rot(cf, idx):
+        p_ = np.roll(np.arange(len(idx)), 1)
+        cf.reorder(p_)
+        return cf, idx[p_]
+
+    def sortby(name):
+        def f(cf, idx):
+            cf.sortby(name)
+            return cf, idx[np.argsort(orig[name][idx], kind="stable")] if name == "a" else None
+        return f
+
+    def copy(cf, idx):
+        return cf.copy(), idx
+
+    def copyrows_list(cf, idx):
+        r = list(range(0, len(idx), 2))
+        return cf.copyrows(r), idx[r]
+
+    def copyrows_mask(cf, idx):
+        m = orig["b"][idx] > 0
+        return cf.copyrows(m), idx[m]
+    ops = [("filter(a>1)", keep(lambda idx: orig["a"][idx] > 1)), ("filter(every second row)", keep(lambda idx: np.arange(len(idx)) % 2 == 0)),
+           ("filter(first third of the rows only)", keep(lambda idx: np.arange(len(idx)) < max(1, len(idx) // 3))),
+           ("filter(all rows)", keep(lambda idx: np.ones(len(idx), bool))), ("removerows(a,[1,4])", removerows), ("reorder(reversed)", reorder_rev),
+           ("reorder(rotated)", reorder_rot), ("sortby(a)", sortby("a")), ("copy", copy), ("copyrows(list)", copyrows_list), ("copyrows(mask)", copyrows_mask)]
+    for d in range(1, depth + 1):
+        for hist in itertools.product(range(len(ops)), repeat=d):
+            cf, idx = build(), np.arange(n)
+            names = [ops[k][0] for k in hist]
+            case = {"init": "vector", "history": names}
+            try:
+                for k in hist:
+                    if len(idx) == 0:
+                        break
+                    src = cf
+                    cf, idx = ops[k][1](cf, idx)
+                    if cf is not src and any(np.shares_memory(np.asarray(cf.getcolumn(t)), np.asarray(src.getcolumn(t2))) for t in cf.titles for t2 in src.titles):
+                        raise Broken("copy-shares-storage", {"op": ops[k][0]})
+                if len(idx) == 0:
+                    continue
+                if cf.nrows != len(idx):
+                    raise Broken("nrows", {"nrows": cf.nrows, "expected": len(idx)})
+                for t in ("a", "b", "v", "w"):
+                    got = np.asarray(cf.getcolumn(t), float)
+                    if got.shape != orig[t][idx].shape or not np.array_equal(got, orig[t][idx]):
+                        raise Broken("column-does-not-hold-the-selected-rows", {"column": t, "shape": list(got.shape), "expected_shape": list(orig[t][idx].shape)})
+                    if getattr(cf, t) is not cf.getcolumn(t) and not np.shares_memory(getattr(cf, t), cf.getcolumn(t)):
+                        raise Broken("attribute-is-not-the-column", {"column": t})
+            except Broken as b:
+                sh.violation("vector:%s:%s" % (">".join(names), b.kind), case, b.detail)
+            except Exception as e:
+                sh.violation("vector:%s:operation-raised" % ">".join(names), case, {"error": "%s: %s" % (type(e).__name__, str(e)[:200])})
+            sh.evaluations += 1
+            sh.nontrivial += 1
+            sh.transitions += 1
+            if len(sh.violations) > 20:
+                return sh
+    sh.outcomes.add(hash("vector") & 0xFFFF)
+    sh.sample(case, limit=1)
+    return sh
+
+
 def run_shard(desc):
     if desc[0] == "readonly":
         return _run_readonly(desc)
+    if desc[0] == "vector":
+        return _run_vector(desc)
     _, init, o1, depth = desc
     sh = Shard()
     work = os.path.join(os.path.dirname(os.path.dirname(os.path.dirname(os.path.abspath(__file__)))), ".work",
@@ -597,6 +694,10 @@ def replay(case):
     work = os.path.join(os.path.dirname(os.path.dirname(os.path.dirname(os.path.abspath(__file__)))), ".work",
                         "c17_replay_%d" % os.getpid())
     os.makedirs(work, exist_ok=True)
+    if case.get("init") == "vector":
+        r = _run_vector(("vector", len(case["history"])))
+        v = [x for x in r.violations if x["case"]["history"] == case["history"]]
+        return (not v), {"violations": v[:2]}
     if case.get("init") == "readonly":
         r = _run_readonly(("readonly",))
         v = [x for x in r.violations if x["case"]["history"] == case["history"]]
